@@ -10,6 +10,7 @@ import FloVerif.Driver.C18
 import FloVerif.Driver.C17
 import FloVerif.Driver.C16
 import FloVerif.Driver.C07
+import FloVerif.Driver.C09
 /-!
 `fvdriver`: reads correspondence transcripts (`<prop> <op> <stream> <inputs…> | <impl outputs…>`) on stdin,
 evaluates the model on the same inputs and prints one `DIFF …` line per disagreement and a `SUMMARY` line.
@@ -24,6 +25,7 @@ def dispatch (prop op stream : String) (ins outs : List String) : List C05.Out :
   | "C13" => C13.handle op ins outs
   | "C06" => C06.handle op stream ins outs
   | "C04" => C04.handle op stream ins outs
+  | "C09" => C09.handle op ins outs
   | "C01" | "C11" | "C12" => (C01.handle op ins outs).map fun o =>
       { field := o.field, cmp := if o.ok then .same 0 else .diff o.msg, fbit := none }
   | "C08" => (C08.handle op ins outs).map fun o =>
